@@ -179,9 +179,1168 @@ theorem domKeep_fosterLoop : ∀ (l : List Id), DomKeep (fosterLoop l) := by
     refine domKeep_ite ?_ ih
     cases rest <;> dk_walk
 
+macro_rules | `(tactic| dk_leaf) => `(tactic| with_reducible exact domKeep_fosterLoop _)
+
 theorem domKeep_appropriatePlace {ov : Option Id} : DomKeep (appropriatePlaceForInsertion ov) := by
   unfold appropriatePlaceForInsertion
-  have hf : ∀ l, DomKeep (fosterLoop l) := domKeep_fosterLoop
-  cases ov <;> dsimp only <;> dk_walk <;> exact hf _
+  cases ov <;> dsimp only <;> dk_walk
+
+theorem satc_and {α : Type} {m : M α} {s : State} {Q1 Q2 : α → State → Prop} (h1 : SatC m s Q1)
+    (h2 : SatC m s Q2) : SatC m s (fun a s' => Q1 a s' ∧ Q2 a s') := by
+  unfold SatC at h1 h2 ⊢
+  cases hm : m s with
+  | error e => rw [hm] at h1; exact h1
+  | ok r => obtain ⟨a, s'⟩ := r; rw [hm] at h1 h2; exact ⟨h1, h2⟩
+
+/-! ### where the handles of an insertion point come from -/
+
+/-- the handles of a computed insertion point are on the stack (or the override target), or are
+`Document` nodes (template contents) -/
+def IpFrom (l : List Id) (ov : Option Id) (d : Dom) (ip : InsertionPoint) : Prop :=
+  ∀ x ∈ ipIds ip, x ∈ l ∨ ov = some x ∨ d.dataOf x = some .document
+
+theorem satc_fosterLoop_from : ∀ (l : List Id) (s : State), CB d0 s → (∀ x ∈ l, IsEl s.dom x) →
+    (∀ x ∈ l, TcDoc s.dom x) →
+    SatC (fosterLoop l) s (fun ip s' => Q2 d0 s s' ∧ IpFrom (l ++ s.openElems) none s'.dom ip) := by
+  intro l
+  induction l with
+  | nil =>
+    intro s hcb _ _
+    unfold fosterLoop
+    refine satcv_htmlElem.bind ?_
+    rintro r s' ⟨rfl, hl⟩
+    have hmem : r ∈ s'.openElems := List.mem_of_head? hl
+    refine satc_pure ⟨Q2.refl hcb, ?_⟩
+    intro x hx
+    simp only [ipIds, List.mem_singleton] at hx; subst hx; exact Or.inl (by simpa using hmem)
+  | cons elem rest ih =>
+    intro s hcb hall htc
+    unfold fosterLoop
+    have hel := hall elem List.mem_cons_self
+    refine (satcv_htmlElemNamed hcb hel).bind ?_
+    rintro b s1 ⟨rfl, hq1⟩
+    by_cases hb : namedP s.dom "template".toList elem = true
+    · rw [if_pos hb]
+      have hn1 : namedP s1.dom "template".toList elem = true := by
+        unfold namedP; rw [nm_ext hq1.ext hel]; exact hb
+      refine (satc_templateContents hq1.cb ((htc elem List.mem_cons_self).ext hq1.ext hq1.g.kext hel) hn1).bind ?_
+      rintro tc s2 ⟨hq2, hdoc⟩
+      refine satc_pure ⟨hq1.trans hq2, ?_⟩
+      intro x hx
+      simp only [ipIds, List.mem_singleton] at hx; subst hx; exact Or.inr (Or.inr hdoc)
+    · rw [if_neg hb]
+      refine (satcv_htmlElemNamed hq1.cb (hel.ext hq1.ext)).bind ?_
+      rintro b2 s2 ⟨rfl, hq2⟩
+      have hq := hq1.trans hq2
+      by_cases hb2 : namedP s1.dom "table".toList elem = true
+      · rw [if_pos hb2]
+        cases rest with
+        | nil => exact satc_panicAt
+        | cons prev rest' =>
+          dsimp only
+          refine satc_pure ⟨hq, ?_⟩
+          intro x hx
+          simp only [ipIds, List.mem_cons, List.not_mem_nil, or_false] at hx
+          rcases hx with rfl | rfl
+          · exact Or.inl (by simp)
+          · exact Or.inl (by simp)
+      · rw [if_neg hb2]
+        have hall' : ∀ x ∈ rest, IsEl s.dom x := fun x hx => hall x (List.mem_cons_of_mem _ hx)
+        refine (ih s2 hq.cb (fun x hx => (hall' x hx).ext hq.ext)
+          (fun x hx => (htc x (List.mem_cons_of_mem _ hx)).ext hq.ext hq.g.kext (hall' x hx))).mono ?_
+        rintro ip s3 ⟨hq3, hfrom⟩
+        refine ⟨hq.trans hq3, ?_⟩
+        intro x hx
+        rcases hfrom x hx with h | h | h
+        · rw [hq.openElems] at h
+          refine Or.inl ?_
+          rcases List.mem_append.mp h with h | h
+          · exact List.mem_append_left _ (List.mem_cons_of_mem _ h)
+          · exact List.mem_append_right _ h
+        · cases h
+        · exact Or.inr (Or.inr h)
+
+theorem satc_appropriatePlace_from {ov : Option Id} {s : State} (hcb : CB d0 s)
+    (hov : ∀ t, ov = some t → IsEl s.dom t ∧ TcDoc s.dom t) :
+    SatC (appropriatePlaceForInsertion ov) s (fun ip s' => IpFrom s.openElems ov s'.dom ip) := by
+  refine SatC.mono (Q := fun ip s' => Q2 d0 s s' ∧ IpFrom s.openElems ov s'.dom ip) ?_ (fun _ _ h => h.2)
+  unfold appropriatePlaceForInsertion
+  have htail : ∀ (target : Id), IsEl s.dom target → TcDoc s.dom target →
+      (target ∈ s.openElems ∨ ov = some target) →
+      SatC (do
+        let __do_lift ← getS
+        if __do_lift.fosterParenting = true then do
+            let foster ← elemIn target fosterTarget
+            if (!foster) = true then do
+                let __do_lift ← htmlElemNamed target "template"
+                if __do_lift = true then do
+                    let contents ← sinkNode (SinkOp.getTemplateContents target)
+                    pure (InsertionPoint.lastChild contents)
+                  else pure (InsertionPoint.lastChild target)
+              else do
+                let __do_lift ← getS
+                fosterLoop __do_lift.openElems.reverse
+          else do
+            let foster ← pure false
+            if (!foster) = true then do
+                let __do_lift ← htmlElemNamed target "template"
+                if __do_lift = true then do
+                    let contents ← sinkNode (SinkOp.getTemplateContents target)
+                    pure (InsertionPoint.lastChild contents)
+                  else pure (InsertionPoint.lastChild target)
+              else do
+                let __do_lift ← getS
+                fosterLoop __do_lift.openElems.reverse) s
+        (fun ip s' => Q2 d0 s s' ∧ IpFrom s.openElems ov s'.dom ip) := by
+    intro target htel httc hts
+    have hrest : ∀ (foster : Bool) (s1 : State), Q2 d0 s s1 →
+        SatC (if (!foster) = true then do
+            let __do_lift ← htmlElemNamed target "template"
+            if __do_lift = true then do
+                let contents ← sinkNode (SinkOp.getTemplateContents target)
+                pure (InsertionPoint.lastChild contents)
+              else pure (InsertionPoint.lastChild target)
+          else do
+            let __do_lift ← getS
+            fosterLoop __do_lift.openElems.reverse) s1
+          (fun ip s' => Q2 d0 s s' ∧ IpFrom s.openElems ov s'.dom ip) := by
+      intro foster s1 hq1
+      have hel1 := htel.ext hq1.ext
+      refine satc_ite (fun _ => ?_) (fun _ => ?_)
+      · refine (satcv_htmlElemNamed hq1.cb hel1).bind ?_
+        rintro b s2 ⟨rfl, hq2⟩
+        have hq := hq1.trans hq2
+        by_cases hb : namedP s1.dom "template".toList target = true
+        · rw [if_pos hb]
+          have hn2 : namedP s2.dom "template".toList target = true := by
+            unfold namedP; rw [nm_ext hq2.ext hel1]; exact hb
+          refine (satc_templateContents hq2.cb (httc.ext hq.ext hq.g.kext htel) hn2).bind ?_
+          rintro tc s3 ⟨hq3, hdoc⟩
+          refine satc_pure ⟨hq.trans hq3, ?_⟩
+          intro x hx
+          simp only [ipIds, List.mem_singleton] at hx; subst hx; exact Or.inr (Or.inr hdoc)
+        · rw [if_neg hb]
+          refine satc_pure ⟨hq, ?_⟩
+          intro x hx
+          simp only [ipIds, List.mem_singleton] at hx; subst hx
+          rcases hts with h | h
+          · exact Or.inl h
+          · exact Or.inr (Or.inl h)
+      · refine satc_getS_bind ?_
+        have hrev : ∀ x ∈ s1.openElems.reverse, x ∈ s.openElems := by
+          intro x hx; rw [hq1.openElems] at hx; exact List.mem_reverse.mp hx
+        refine (satc_fosterLoop_from _ s1 hq1.cb (fun x hx => (hcb.h.open_el x (hrev x hx)).ext hq1.ext)
+          (fun x hx => (hcb.h.open_tc x (hrev x hx)).ext hq1.ext hq1.g.kext (hcb.h.open_el x (hrev x hx)))).mono ?_
+        rintro ip s2 ⟨hq2, hfrom⟩
+        refine ⟨hq1.trans hq2, ?_⟩
+        intro x hx
+        rcases hfrom x hx with h | h | h
+        · refine Or.inl ?_
+          rcases List.mem_append.mp h with h | h
+          · exact hrev x h
+          · rw [hq1.openElems] at h; exact h
+        · cases h
+        · exact Or.inr (Or.inr h)
+    refine satc_getS_bind ?_
+    refine satc_ite (fun _ => ?_) (fun _ => ?_)
+    · refine (satcv_elemIn hcb htel).bind ?_
+      rintro foster s1 ⟨-, hq1⟩
+      exact hrest foster s1 hq1
+    · refine SatC.bind (Q := fun foster s1 => s = s1) (satc_pure rfl) ?_
+      rintro foster s1 rfl
+      exact hrest foster s (Q2.refl hcb)
+  cases ov with
+  | some t =>
+    dsimp only
+    refine SatC.bind (Q := fun r s' => t = r ∧ s = s') (satc_pure ⟨rfl, rfl⟩) ?_
+    rintro target s0 ⟨rfl, rfl⟩
+    exact htail t (hov t rfl).1 (hov t rfl).2 (Or.inr rfl)
+  | none =>
+    dsimp only
+    refine satcv_currentNode.bind ?_
+    rintro cur s0 ⟨hs0, hl⟩
+    subst hs0
+    have hmem : cur ∈ s0.openElems := List.mem_of_getLast? hl
+    exact htail cur (hcb.h.open_el cur hmem) (hcb.h.open_tc cur hmem) (Or.inl hmem)
+
+/-! ### partial-correctness rules -/
+
+theorem pcat_bind {α β : Type} {m : M α} {f : α → M β} {s : State} {Q : α → State → Prop}
+    {R : β → State → Prop} (h1 : PCat m s Q) (h2 : ∀ a s1, Q a s1 → PCat (f a) s1 R) : PCat (m >>= f) s R := by
+  intro b s' h
+  have h' : (StateT.bind m f) s = .ok (b, s') := h
+  unfold StateT.bind at h'
+  cases hm : m s with
+  | error e => simp [hm, bind, Except.bind] at h'
+  | ok r =>
+    obtain ⟨a, s1⟩ := r
+    simp only [hm, bind, Except.bind] at h'
+    exact h2 a s1 (h1 a s1 hm) b s' h'
+
+theorem pcat_pure {α : Type} {a : α} {s : State} {Q : α → State → Prop} (h : Q a s) : PCat (pure a : M α) s Q := by
+  intro b s' hb
+  have h' : (Except.ok (a, s) : Except String (α × State)) = .ok (b, s') := hb
+  cases h'; exact h
+
+theorem pcat_throw {α : Type} {e : String} {s : State} {Q : α → State → Prop} : PCat (throw e : M α) s Q := by
+  intro b s' hb
+  have h' : (Except.error e : Except String (α × State)) = .ok (b, s') := hb
+  cases h'
+
+theorem pcat_sink {op : SinkOp} {s : State} {Q : Output → State → Prop}
+    (h : ∀ d' out, s.dom.apply op = .ok (d', out) →
+      Q out { s with dom := d', traceRev := (op, out) :: s.traceRev }) : PCat (sink op) s Q := by
+  intro out s' hs
+  unfold H5V.Model.HtmlTB.sink at hs
+  cases ha : s.dom.apply op with
+  | error e => simp [ha] at hs
+  | ok r =>
+    obtain ⟨d', o⟩ := r
+    simp only [ha] at hs
+    cases hs
+    exact h _ _ ha
+
+/-! ### creating nodes: the new node is the last one of the arena -/
+
+theorem createElement_size (d : Dom) (name : QualName) (attrs : List Attr) (flags : ElementFlags) :
+    (d.createElement name attrs flags).1.size = (d.createElement name attrs flags).2 + 1 := by
+  unfold Dom.createElement
+  split <;> simp [Dom.alloc, Dom.size]
+
+theorem pc_createElement_size {name : QualName} {attrs : List Attr} {hadDup : Bool} {s : State} :
+    PCat (createElementWithFlags name attrs hadDup) s (fun r s' => s'.dom.size = r + 1) := by
+  unfold createElementWithFlags sinkNode
+  simp only
+  refine pcat_bind (Q := fun o s' => ∀ r, o = .node r → s'.dom.size = r + 1) (pcat_sink ?_) ?_
+  · intro d' out ha r hr
+    rw [TBSafe.apply_createElement] at ha
+    cases ha
+    cases hr
+    exact createElement_size _ _ _ _
+  · intro o s1 ho
+    cases o <;> first | exact pcat_throw | exact pcat_pure (ho _ rfl)
+
+/-- `create_element`, with the size of the arena afterwards -/
+theorem satc_createElement_sz {name : QualName} {attrs : List Attr} {hadDup : Bool} {s : State} (hcb : CB d0 s)
+    (ha : Dom.attrKeysNodup attrs = true) :
+    SatC (createElementWithFlags name attrs hadDup) s
+      (fun r s' => CreatedC d0 s s' r name ∧ s'.dom.size = r + 1) :=
+  satc_and_pc (satc_createElement hcb ha) pc_createElement_size
+
+/-- the result of `create_comment` -/
+structure CreatedK (d0 : Dom) (s s' : State) (r : Id) : Prop where
+  q : Q2 d0 s s'
+  ge : s.dom.size ≤ r
+  sz : s'.dom.size = r + 1
+  fresh : FreshNode s'.dom r
+  data : ∃ t, s'.dom.dataOf r = some (.comment t)
+
+theorem contract_createComment {d : Dom} {t : List Char} : Contract d (.createComment t) := rfl
+
+theorem satc_createComment {text : Str} {s : State} (hcb : CB d0 s) :
+    SatC (sinkNode (.createComment text)) s (fun r s' => CreatedK d0 s s' r) := by
+  unfold sinkNode
+  refine SatC.bind (satc_sink (Q := fun o s' => ∃ r, o = .node r ∧ CreatedK d0 s s' r) hcb.d
+    contract_createComment ?_) ?_
+  · intro d' out hap hd
+    have hap' := hap
+    rw [TBSafe.apply_createComment] at hap
+    cases hap
+    refine ⟨_, rfl, ?_⟩
+    have hq := q2_of_nt hcb (op := .createComment text) rfl hap' hd
+    have hr : (s.dom.createComment text).2 = s.dom.size := rfl
+    rw [hr]
+    refine ⟨hq, Nat.le_refl _, ?_, ⟨?_, ?_, ?_⟩, text, ?_⟩
+    · show (s.dom.alloc (.comment text)).1.size = _
+      simp
+    · show (s.dom.alloc (.comment text)).1.isInsertable _ = true
+      unfold Dom.isInsertable; rw [dataOf_alloc]; simp
+    · show (s.dom.alloc (.comment text)).1.parentOf _ = none
+      rw [parentOf_alloc]; exact parentOf_none_of_ge (Nat.le_refl _)
+    · show (s.dom.alloc (.comment text)).1.childrenOf _ = []
+      rw [childrenOf_alloc]; exact childrenOf_nil_of_ge (Nat.le_refl _)
+    · show (s.dom.alloc (.comment text)).1.dataOf _ = _
+      rw [dataOf_alloc]; simp
+  · rintro o s' ⟨r, rfl, hc⟩
+    exact satc_pure hc
+
+/-! ### inserting a node that was created *before* the insertion point was computed -/
+
+theorem ipParent_ne {d : Dom} (hi : Inv d) {ip : InsertionPoint} {r P : Id} (hf : FreshNode d r)
+    (hne : ∀ x ∈ ipIds ip, x ≠ r) (hv : IpValid d ip) (h : ipParent d ip = some P) : P ≠ r := by
+  cases ip with
+  | lastChild p => simp [ipParent] at h; subst h; exact hne _ (by simp [ipIds])
+  | beforeSibling sb => exact absurd hv id
+  | tableFosterParenting e pe =>
+    simp only [ipParent] at h
+    cases hpar : d.parentOf e with
+    | none => rw [hpar] at h; simp at h; subst h; exact hne _ (by simp [ipIds])
+    | some Q =>
+      rw [hpar] at h; simp at h; subst h
+      rintro rfl
+      have := (hi.wf.links e _).mp hpar
+      rw [hf.kids] at this; cases this
+
+/-- `insert_appropriately(node)` for a fresh node that is not on the stack and not a `Document` -/
+theorem satc_insertAppropriately_node {r : Id} {s : State} (hcb : CB d0 s) (hf : FreshNode s.dom r)
+    (hst : ∀ x ∈ s.openElems, x ≠ r) (hnd : s.dom.dataOf r ≠ some .document) :
+    SatC (insertAppropriately (.node r) none) s (fun _ s' => T2 d0 s s' ∧
+      ∃ P, P ≠ r ∧ NodeEff s.dom s'.dom r P) := by
+  unfold insertAppropriately
+  have hno : ∀ t, (none : Option Id) = some t → IsEl s.dom t ∧ TcDoc s.dom t := fun t h => by cases h
+  refine (satc_and (satc_and_pc (satc_appropriatePlace (ov := none) hcb hno) (domKeep_appropriatePlace s))
+    (satc_appropriatePlace_from (ov := none) hcb hno)).bind ?_
+  rintro ip s1 ⟨⟨⟨hq1, hip⟩, hdom⟩, hfrom⟩
+  have hf1 : FreshNode s1.dom r := hf.of_same_dom hdom
+  have hne : ∀ x ∈ ipIds ip, x ≠ r := by
+    intro x hx
+    rcases hfrom x hx with h | h | h
+    · exact hst x h
+    · cases h
+    · rw [hdom] at h; rintro rfl; exact hnd h
+  refine (satc_insertAt_node hq1.cb hip.valid hf1 hne).mono ?_
+  rintro _ s2 ⟨ht, P, hP, heff⟩
+  obtain ⟨da, ta, ea⟩ := hq1.same
+  obtain ⟨db, tb, eb⟩ := ht.same
+  refine ⟨⟨ht.cb, hq1.ext.trans ht.ext, hq1.g.kext.trans ht.kext, db, tb, by rw [eb, ea]⟩, P,
+    ipParent_ne hq1.cb.d.inv hf1 hne hip.valid hP, ?_⟩
+  rw [← hdom]; exact heff
+
+/-- growth across "create the node `r` (the last node of the arena), query steps, attach it" -/
+theorem GrowRel.attachLast {s s1 s3 : State} {r P : Id} (g : GrowRel s s1) (t : T2 d0 s1 s3)
+    (hr : s.dom.size ≤ r) (hsz : s1.dom.size = r + 1) (hP : P ≠ r) (he : NodeEff s1.dom s3.dom r P) :
+    GrowRel s s3 := by
+  have hlt : P < r + 1 := hsz ▸ he.plt
+  exact g.attach t hr (hsz ▸ Nat.lt_succ_self r) (Nat.lt_of_le_of_ne (Nat.le_of_lt_succ hlt) hP) he
+
+/-- growth by an insertion of text -/
+theorem GrowRel.ofText {s3 s4 : State} {P : Id} (t : T2 d0 s3 s4) (he : TextEff s3.dom s4.dom P) :
+    GrowRel s3 s4 := by
+  obtain ⟨d, tr, e⟩ := t.same
+  have hst : s4.openElems = s3.openElems := by rw [e]
+  rcases he with ⟨hs, hp⟩ | ⟨hs, hP, hp⟩
+  · refine ⟨t.ext, t.kext, Nat.le_of_eq hs.symm, fun x _ => hp x, ?_, ⟨s3.openElems, [], by simp [hst],
+      List.Sublist.refl _, by simp, List.Pairwise.nil⟩⟩
+    intro x p hx hpx
+    rw [hp x, parentOf_none_of_ge hx] at hpx; cases hpx
+  · refine ⟨t.ext, t.kext, by omega, ?_, ?_, ⟨s3.openElems, [], by simp [hst],
+      List.Sublist.refl _, by simp, List.Pairwise.nil⟩⟩
+    · intro x hx
+      rw [hp x, if_neg (Nat.ne_of_lt hx)]
+    · intro x p hx hpx
+      rw [hp x] at hpx
+      by_cases hxe : x = s3.dom.size
+      · rw [if_pos hxe] at hpx; cases hpx; rw [hxe]; exact hP
+      · rw [if_neg hxe, parentOf_none_of_ge hx] at hpx; cases hpx
+
+theorem GrowRel.text {s s3 s4 : State} {P : Id} (g : GrowRel s s3) (t : T2 d0 s3 s4)
+    (he : TextEff s3.dom s4.dom P) : GrowRel s s4 := g.trans (GrowRel.ofText t he)
+
+/-! ### the wrappers of `insert_element` -/
+
+theorem cp_insertElementFor {c : List Id} {tag : Tag} (ha : Dom.attrKeysNodup tag.attrs = true) :
+    CP d0 c (insertElementFor tag) (fun r => [r]) := cp_insertElement ha
+
+theorem cp_insertAndPopElementFor {c : List Id} {tag : Tag} (ha : Dom.attrKeysNodup tag.attrs = true) :
+    CP d0 c (insertAndPopElementFor tag) (fun r => [r]) := cp_insertElement ha
+
+theorem cp_insertPhantom {c : List Id} {name : String} : CP d0 c (insertPhantom name) (fun r => [r]) :=
+  cp_insertElement rfl
+
+macro_rules | `(tactic| cp_leaf) => `(tactic| with_reducible exact cp_insertElementFor (by assumption))
+macro_rules | `(tactic| cp_leaf) => `(tactic| with_reducible exact cp_insertAndPopElementFor (by assumption))
+macro_rules | `(tactic| cp_leaf) => `(tactic| with_reducible exact cp_insertPhantom)
+
+/-! ### text and comments -/
+
+theorem cp_appendText {c : List Id} {text : Str} : CP d0 c (appendText text) (fun _ => []) := by
+  intro s hcb _
+  unfold appendText insertAppropriately
+  refine SatC.bind (Q := fun _ s' => CB d0 s' ∧ GrowRel s s') ?_ (fun _ s' h => satc_pure ⟨h.1, h.2, CtxOk.nil _⟩)
+  refine (satc_appropriatePlace (ov := none) hcb (fun t h => by cases h)).bind ?_
+  rintro ip s1 ⟨hq1, hip⟩
+  refine (satc_insertAt_text hq1.cb hip.valid).mono ?_
+  rintro _ s2 ⟨ht, P, _, heff⟩
+  exact ⟨ht.cb, hq1.g.text ht heff⟩
+
+macro_rules | `(tactic| cp_leaf) => `(tactic| with_reducible exact cp_appendText)
+
+theorem CreatedK.notOnStack {s s1 : State} {r : Id} (hcb : CB d0 s) (hc : CreatedK d0 s s1 r) :
+    ∀ x ∈ s1.openElems, x ≠ r := by
+  intro x hx e
+  rw [hc.q.openElems] at hx
+  subst e
+  exact Nat.lt_irrefl _ (Nat.lt_of_lt_of_le (hcb.h.lt x hx) hc.ge)
+
+theorem CreatedK.notDoc {s s1 : State} {r : Id} (hc : CreatedK d0 s s1 r) :
+    s1.dom.dataOf r ≠ some .document := by
+  obtain ⟨t, ht⟩ := hc.data
+  rw [ht]; intro h; cases h
+
+theorem cp_appendComment {c : List Id} {text : Str} : CP d0 c (appendComment text) (fun _ => []) := by
+  intro s hcb _
+  unfold appendComment
+  refine (satc_createComment hcb).bind ?_
+  intro r s1 hc
+  refine SatC.bind (Q := fun _ s' => CB d0 s' ∧ GrowRel s s') ?_ (fun _ s' h => satc_pure ⟨h.1, h.2, CtxOk.nil _⟩)
+  refine (satc_insertAppropriately_node hc.q.cb hc.fresh (hc.notOnStack hcb) hc.notDoc).mono ?_
+  rintro _ s3 ⟨ht, P, hPne, heff⟩
+  exact ⟨ht.cb, hc.q.g.attachLast ht hc.ge hc.sz hPne heff⟩
+
+macro_rules | `(tactic| cp_leaf) => `(tactic| with_reducible exact cp_appendComment)
+
+/-- appending a fresh node `r` (the last node of the arena) to an older container -/
+theorem satc_appendLast {p r : Id} {s s1 : State} (g : GrowRel s s1) (hcb : CB d0 s1)
+    (hp : s1.dom.isContainer p = true) (hpr : p ≠ r) (hf : FreshNode s1.dom r) (hr : s.dom.size ≤ r)
+    (hsz : s1.dom.size = r + 1) :
+    SatC (sinkUnit (.append p (.node r))) s1 (fun _ s' => CB d0 s' ∧ GrowRel s s' ∧ Ext s1.dom s'.dom ∧
+      ∃ d t, s' = { s1 with dom := d, traceRev := t }) := by
+  have hne : ∀ x ∈ ipIds (.lastChild p), x ≠ r := by
+    intro x hx; simp only [ipIds, List.mem_singleton] at hx; subst hx; exact hpr
+  refine (satc_insertAt_node (ip := .lastChild p) hcb hp hf hne).mono ?_
+  rintro _ s2 ⟨ht, P, hP, heff⟩
+  have hPe : P = p := by simp [ipParent] at hP; exact hP.symm
+  exact ⟨ht.cb, g.attachLast ht hr hsz (by rw [hPe]; exact hpr) heff, ht.ext, ht.same⟩
+
+theorem cp_appendCommentToDoc {c : List Id} {text : Str} : CP d0 c (appendCommentToDoc text) (fun _ => []) := by
+  intro s hcb _
+  unfold appendCommentToDoc
+  refine (satc_createComment hcb).bind ?_
+  intro r s1 hc
+  refine satc_getS_bind ?_
+  refine SatC.bind (Q := fun _ s' => CB d0 s' ∧ GrowRel s s') ?_ (fun _ s' h => satc_pure ⟨h.1, h.2, CtxOk.nil _⟩)
+  have hdoc := hc.q.cb.h.doc0
+  rw [hc.q.cb.h.docH]
+  have h0 : (0 : Id) ≠ r := by
+    rintro rfl
+    exact hc.notDoc hdoc
+  exact (satc_appendLast hc.q.g hc.q.cb (isContainer_of_doc hdoc) h0 hc.fresh hc.ge hc.sz).mono
+    (fun _ _ h => ⟨h.1, h.2.1⟩)
+
+macro_rules | `(tactic| cp_leaf) => `(tactic| with_reducible exact cp_appendCommentToDoc)
+
+theorem cp_appendCommentToHtml {c : List Id} {text : Str} : CP d0 c (appendCommentToHtml text) (fun _ => []) := by
+  intro s hcb _
+  unfold appendCommentToHtml
+  refine satcv_htmlElemFn.bind ?_
+  rintro target s0 ⟨rfl, hl⟩
+  have hmem : target ∈ s0.openElems := List.mem_of_head? hl
+  refine (satc_createComment hcb).bind ?_
+  intro r s1 hc
+  refine SatC.bind (Q := fun _ s' => CB d0 s' ∧ GrowRel s0 s') ?_ (fun _ s' h => satc_pure ⟨h.1, h.2, CtxOk.nil _⟩)
+  have hel := (hcb.h.open_el target hmem).ext hc.q.ext
+  have hne : target ≠ r := by
+    rintro rfl
+    exact Nat.lt_irrefl _ (Nat.lt_of_lt_of_le (hcb.h.lt target hmem) hc.ge)
+  exact (satc_appendLast hc.q.g hc.q.cb (isContainer_of_isElement (isElement_of_isEl hel)) hne hc.fresh hc.ge
+    hc.sz).mono (fun _ _ h => ⟨h.1, h.2.1⟩)
+
+macro_rules | `(tactic| cp_leaf) => `(tactic| with_reducible exact cp_appendCommentToHtml)
+
+/-! ### `create_root` -/
+
+theorem cp_createRoot {c : List Id} {attrs : List Attr} (ha : Dom.attrKeysNodup attrs = true) :
+    CP d0 c (createRoot attrs) (fun _ => []) := by
+  intro s hcb _
+  unfold createRoot
+  refine (satc_createElement_sz hcb ha).bind ?_
+  rintro elem s1 ⟨hc, hsz⟩
+  unfold H5V.Model.HtmlTB.push
+  refine satc_modS_bind ?_
+  refine satc_getS_bind ?_
+  have hcb2 := hc.q.cb.push hc.el hc.tc
+  have g2 : GrowRel s { s1 with openElems := s1.openElems ++ [elem] } :=
+    hc.q.g.push hc.q.openElems hc.ge hc.lt
+  have hd0 : s1.docHandle = 0 := hc.q.cb.h.docH
+  have hpc : s1.dom.isContainer s1.docHandle = true := by rw [hd0]; exact isContainer_of_doc hc.q.cb.h.doc0
+  have h0 : s1.docHandle ≠ elem := by
+    rw [hd0]
+    rintro rfl
+    exact Nat.lt_irrefl _ (Nat.lt_of_lt_of_le (lt_of_data hcb.h.doc0) hc.ge)
+  refine SatC.mono (satc_appendLast (p := s1.docHandle) g2 hcb2 hpc h0 hc.fresh hc.ge hsz) ?_
+  intro _ s' h
+  exact ⟨h.1, h.2.1, CtxOk.nil _⟩
+
+macro_rules | `(tactic| cp_leaf) => `(tactic| with_reducible exact cp_createRoot (by assumption))
+
+/-! ### inserting an element that was created *after* the insertion point was computed -/
+
+/-- the handles of a valid insertion point are nodes of the arena -/
+theorem ipIds_lt {d : Dom} {ip : InsertionPoint} (hv : IpValid d ip) : ∀ x ∈ ipIds ip, x < d.size := by
+  intro x hx
+  cases ip with
+  | lastChild p => simp [ipIds] at hx; subst hx; exact lt_of_isContainer hv
+  | beforeSibling sb => exact absurd hv id
+  | tableFosterParenting e pe =>
+    simp [ipIds] at hx
+    rcases hx with rfl | rfl
+    · exact lt_of_isElement hv.1
+    · exact lt_of_isElement hv.2
+
+/-- what `insert_at(ip, elem)` does when `ip` was computed (state `s1`) before `elem` was created
+(state `s3`) and only tree-neutral calls followed (state `s4`) -/
+structure InsertedC (d0 : Dom) (s s4 s5 : State) (elem : Id) (name : QualName) : Prop where
+  cb : CB d0 s5
+  g : GrowRel s s5
+  el : IsEl s5.dom elem
+  tc : TcDoc s5.dom elem
+  nm : nm s5.dom elem = ⟨name.ns, name.loc⟩
+  lt : elem < s5.dom.size
+  same : ∃ d t, s5 = { s4 with dom := d, traceRev := t }
+
+theorem satc_insertCreated {ip : InsertionPoint} {elem : Id} {name : QualName} {s s1 s2 s3 s4 : State}
+    (hq1 : Q2 d0 s s1) (hv : IpValid s1.dom ip) (hq2 : Q2 d0 s1 s2) (hc : CreatedC d0 s2 s3 elem name)
+    (hq4 : Q2 d0 s3 s4) (hd4 : s4.dom = s3.dom) :
+    SatC (H5V.Model.HtmlTB.insertAt ip (NodeOrText.node elem)) s4
+      (fun _ s5 => InsertedC d0 s s4 s5 elem name) := by
+  have hq13 : Q2 d0 s1 s3 := hq2.trans hc.q
+  have hq14 : Q2 d0 s1 s4 := hq13.trans hq4
+  have hv4 : IpValid s4.dom ip := hv.kext hq14.g.kext
+  have hf4 : FreshNode s4.dom elem := hc.fresh.of_same_dom hd4
+  have hge : s1.dom.size ≤ elem := Nat.le_trans hq2.g.size hc.ge
+  have hne : ∀ x ∈ ipIds ip, x ≠ elem := fun x hx e => by
+    have := ipIds_lt hv x hx; rw [e] at this; exact Nat.lt_irrefl _ (Nat.lt_of_lt_of_le this hge)
+  refine (satc_insertAt_node hq4.cb hv4 hf4 hne).mono ?_
+  rintro _ s5 ⟨ht5, P, hP, heff⟩
+  have hPlt : P < elem := by
+    have h1 : ipParent s4.dom ip = ipParent s1.dom ip := ipParent_stable hv hq14.g.oldPar
+    rw [h1] at hP
+    exact Nat.lt_of_lt_of_le (ipParent_lt hq1.cb.d.inv hv hP) hge
+  have hg14 : GrowRel s s4 := hq1.g.trans hq14.g
+  have hlt4 : elem < s4.dom.size := by rw [hd4]; exact hc.lt
+  have hel4 : IsEl s4.dom elem := hc.el.ext hq4.ext
+  refine ⟨ht5.cb, hg14.attach ht5 (Nat.le_trans hq1.g.size hge) hlt4 hPlt heff, hel4.ext ht5.ext,
+    (hc.tc.ext hq4.ext hq4.g.kext hc.el).ext ht5.ext ht5.kext hel4, ?_, by rw [heff.size]; exact hlt4, ht5.same⟩
+  rw [nm_ext ht5.ext hel4, nm_ext hq4.ext hc.el]; exact hc.nm
+
+/-- the final `push` of the insertion helpers -/
+theorem InsertedC.push {s s4 s5 : State} {elem : Id} {name : QualName} (h : InsertedC d0 s s4 s5 elem name)
+    (hst : s4.openElems = s.openElems) (hr : s.dom.size ≤ elem) :
+    CB d0 { s5 with openElems := s5.openElems ++ [elem] } ∧
+    GrowRel s { s5 with openElems := s5.openElems ++ [elem] } := by
+  obtain ⟨d, t, e⟩ := h.same
+  have hst5 : s5.openElems = s.openElems := by rw [e]; exact hst
+  exact ⟨h.cb.push h.el h.tc, h.g.push hst5 hr h.lt⟩
+
+/-! ### `insert_foreign_element` -/
+
+theorem cp_insertForeignElement {c : List Id} {tag : Tag} {ns : Str} {only : Bool}
+    (ha : Dom.attrKeysNodup tag.attrs = true) :
+    CP d0 c (insertForeignElement tag ns only) (fun r => [r]) := by
+  intro s hcb _
+  unfold insertForeignElement
+  refine (satc_appropriatePlace (ov := none) hcb (fun t h => by cases h)).bind ?_
+  rintro ip s1 ⟨hq1, hip⟩
+  refine (satc_createElement hq1.cb ha).bind ?_
+  intro elem s3 hc
+  dsimp only
+  have hge : s.dom.size ≤ elem := Nat.le_trans hq1.g.size hc.ge
+  unfold H5V.Model.HtmlTB.push
+  refine satc_ite (fun _ => ?_) (fun _ => ?_)
+  · refine (satc_insertCreated hq1 hip.valid (Q2.refl hq1.cb) hc (Q2.refl hc.q.cb) rfl).bind ?_
+    intro _ s5 hi
+    refine satc_modS_bind ?_
+    have hp := hi.push (by rw [hc.q.openElems, hq1.openElems]) hge
+    exact satc_pure ⟨hp.1, hp.2, fun x hx => by rw [List.mem_singleton.mp hx]; exact hi.el⟩
+  · refine satc_modS_bind ?_
+    refine satc_pure ⟨hc.q.cb.push hc.el hc.tc, ?_, fun x hx => by rw [List.mem_singleton.mp hx]; exact hc.el⟩
+    exact (hq1.g.trans hc.q.g).push (by rw [hc.q.openElems, hq1.openElems]) hge hc.lt
+
+macro_rules | `(tactic| cp_leaf) => `(tactic| with_reducible exact cp_insertForeignElement (by assumption))
+
+/-! ### `parse_raw_data` -/
+
+theorem cp_parseRawData {c : List Id} {tag : Tag} {k : H5V.Model.HtmlTok.RawKind}
+    (ha : Dom.attrKeysNodup tag.attrs = true) : CP d0 c (parseRawData tag k) (fun _ => []) := by
+  unfold parseRawData
+  refine cp_bind (cp_insertElementFor ha) ?_
+  intro _
+  exact cp_toRawTextMode
+
+macro_rules | `(tactic| cp_leaf) => `(tactic| with_reducible exact cp_parseRawData (by assumption))
+
+/-! ### `should_attach_declarative_shadow` -/
+
+theorem contract_allow {d : Dom} {p : Id} (h : d.isContainer p = true) :
+    Contract d (.allowDeclarativeShadowRoots p) := h
+
+theorem isContainer_ipNodes {d : Dom} {ip : InsertionPoint} (hv : IpValid d ip) :
+    d.isContainer ip.nodes.1 = true := by
+  cases ip with
+  | lastChild p => exact hv
+  | beforeSibling sb => exact absurd hv id
+  | tableFosterParenting e pe => exact isContainer_of_isElement hv.1
+
+theorem cp_shouldAttachDeclarativeShadow {c : List Id} {tag : Tag} :
+    CP d0 c (shouldAttachDeclarativeShadow tag) (fun _ => []) := by
+  intro s hcb _
+  unfold shouldAttachDeclarativeShadow
+  refine (satc_appropriatePlace (ov := none) hcb (fun t h => by cases h)).bind ?_
+  rintro ip s1 ⟨hq1, hip⟩
+  dsimp only
+  unfold sinkBool
+  refine SatC.bind (Q := fun _ s' => CB d0 s' ∧ GrowRel s s') ?_ ?_
+  · refine SatC.bind (satc_sink_nt hq1.cb rfl (contract_allow (isContainer_ipNodes hip.valid))) ?_
+    rintro out s2 ⟨hcb2, hg2, _⟩
+    cases out <;> first
+      | exact satc_pure ⟨hcb2, hq1.g.trans hg2⟩
+      | exact satc_throw_lit
+  · rintro allow s2 ⟨hcb2, hg2⟩
+    refine satc_getS_bind ?_
+    exact satc_pure ⟨hcb2, hg2, CtxOk.nil _⟩
+
+macro_rules | `(tactic| cp_leaf) => `(tactic| with_reducible exact cp_shouldAttachDeclarativeShadow)
+
+/-! ### `insert_element`, with the name of the new element -/
+
+/-- **`insert_element`** (value-carrying variant of `cp_insertElement`): the result is an element
+named as requested -/
+theorem satc_insertElement_val {pushIt : Bool} {ns name : Str} {attrs : List Attr} {hadDup : Bool} {s : State}
+    (hcb : CB d0 s) (ha : Dom.attrKeysNodup attrs = true) :
+    SatC (insertElement pushIt ns name attrs hadDup) s
+      (fun r s' => CB d0 s' ∧ GrowRel s s' ∧ IsEl s'.dom r ∧ nm s'.dom r = ⟨ns, name⟩) := by
+  unfold insertElement
+  refine (satc_appropriatePlace (ov := none) hcb (fun t h => by cases h)).bind ?_
+  rintro ip s1 ⟨hq1, hip⟩
+  dsimp only
+  refine satc_getS_bind ?_
+  have hrest : ∀ (elem : Id) (s2 s3 s4 : State), Q2 d0 s1 s2 → CreatedC d0 s2 s3 elem { pfx := none, ns := ns, loc := name } →
+      Q2 d0 s3 s4 → s4.dom = s3.dom →
+      SatC (do
+        H5V.Model.HtmlTB.insertAt ip (NodeOrText.node elem)
+        if pushIt = true then do
+            push elem
+            pure elem
+          else pure elem) s4
+        (fun r s' => CB d0 s' ∧ GrowRel s s' ∧ IsEl s'.dom r ∧ nm s'.dom r = ⟨ns, name⟩) := by
+    intro elem s2 s3 s4 hq2 hc hq4 hd4
+    refine (satc_insertCreated hq1 hip.valid hq2 hc hq4 hd4).bind ?_
+    intro _ s5 hi
+    have hge : s.dom.size ≤ elem := Nat.le_trans hq1.g.size (Nat.le_trans hq2.g.size hc.ge)
+    refine satc_ite (fun _ => ?_) (fun _ => ?_)
+    · unfold H5V.Model.HtmlTB.push
+      refine satc_modS_bind ?_
+      have hp := hi.push (by rw [hq4.openElems, hc.q.openElems, hq2.openElems, hq1.openElems]) hge
+      exact satc_pure ⟨hp.1, hp.2, hi.el, hi.nm⟩
+    · exact satc_pure ⟨hi.cb, hi.g, hi.el, hi.nm⟩
+  have htail : ∀ (fa : Bool) (s2 : State), Q2 d0 s1 s2 →
+      (fa = true → s1.formElem.isSome = true ∧ hasNamed s1.dom s1.openElems "template".toList = false) →
+      SatC (do
+        let elem ← createElementWithFlags { pfx := none, ns := ns, loc := name } attrs hadDup
+        if fa = true then do
+            let __do_lift ← getS
+            match __do_lift.formElem with
+              | some form => do
+                sinkUnit (SinkOp.associateWithForm elem form ip.nodes.fst ip.nodes.snd)
+                H5V.Model.HtmlTB.insertAt ip (NodeOrText.node elem)
+                if pushIt = true then do
+                    push elem
+                    pure elem
+                  else pure elem
+              | none => do
+                panicAt "unwrap-none" "mod.rs:1401" "form_elem unwrap"
+                H5V.Model.HtmlTB.insertAt ip (NodeOrText.node elem)
+                if pushIt = true then do
+                    push elem
+                    pure elem
+                  else pure elem
+          else do
+            H5V.Model.HtmlTB.insertAt ip (NodeOrText.node elem)
+            if pushIt = true then do
+                push elem
+                pure elem
+              else pure elem) s2
+        (fun r s' => CB d0 s' ∧ GrowRel s s' ∧ IsEl s'.dom r ∧ nm s'.dom r = ⟨ns, name⟩) := by
+    intro fa s2 hq2 hfa
+    refine (satc_createElement hq2.cb ha).bind ?_
+    intro elem s3 hc
+    refine satc_ite (fun hfat => ?_) (fun _ => hrest elem s2 s3 s3 hq2 hc (Q2.refl hc.q.cb) rfl)
+    refine satc_getS_bind ?_
+    obtain ⟨hsome, hnot⟩ := hfa hfat
+    have hform3 : s3.formElem = s1.formElem := by rw [hc.q.formElem, hq2.formElem]
+    cases hf : s3.formElem with
+    | none => exact SatC.bind (Q := fun _ _ => False) satc_panicAt (fun _ _ h => h.elim)
+    | some form =>
+      dsimp only
+      have hq13 : Q2 d0 s1 s3 := hq2.trans hc.q
+      have hnotmpl : ∀ h ∈ s.openElems, namedP s.dom "template".toList h = false := by
+        intro h hh
+        have : hasNamed s1.dom s1.openElems "template".toList = false := hnot
+        unfold hasNamed at this
+        rw [List.any_eq_false] at this
+        have h1 := this h (by rw [hq1.openElems]; exact hh)
+        unfold namedP
+        rw [← nm_ext hq1.ext (hcb.h.open_el h hh)]
+        simpa using h1
+      have hels := hip.els hnotmpl rfl
+      have hels3 : ∀ x ∈ ipIds ip, s3.dom.isElement x = true := fun x hx => isElement_kext hq13.g.kext (hels x hx)
+      have hcontract : Contract s3.dom (.associateWithForm elem form ip.nodes.fst ip.nodes.snd) := by
+        show (s3.dom.isElement elem && s3.dom.isElement form && s3.dom.isElement ip.nodes.fst &&
+          (match ip.nodes.snd with | some q => s3.dom.isElement q | none => true)) = true
+        rw [isElement_of_isEl hc.el, isElement_of_isEl (hc.q.cb.h.form form hf)]
+        cases ip with
+        | lastChild p => simp [InsertionPoint.nodes, hels3 p (by simp [ipIds])]
+        | beforeSibling sb => exact absurd hip.valid id
+        | tableFosterParenting e pe =>
+          simp [InsertionPoint.nodes, hels3 e (by simp [ipIds]), hels3 pe (by simp [ipIds])]
+      refine SatC.bind (satc_sinkUnit (Q := fun _ s' => Q2 d0 s3 s' ∧ s'.dom = s3.dom) hc.q.cb.d hcontract
+        (fun d' out hap hd => ⟨q2_of_nt hc.q.cb rfl hap hd, by
+          rw [TBSafe.apply_assoc] at hap; cases hap; rfl⟩)) ?_
+      rintro _ s4 ⟨hq4, hd4⟩
+      exact hrest elem s2 s3 s4 hq2 hc hq4 hd4
+  refine satc_ite (fun hfa => ?_) (fun _ => ?_)
+  · refine (satcv_inHtmlElemNamed hq1.cb).bind ?_
+    rintro b s2 ⟨rfl, hq2⟩
+    have hsome : s1.formElem.isSome = true := by
+      simp only [Bool.and_eq_true] at hfa; exact hfa.2
+    refine satc_ite (fun _ => ?_) (fun hno => ?_)
+    · refine SatC.bind (Q := fun fa s' => fa = false ∧ s2 = s') (satc_pure ⟨rfl, rfl⟩) ?_
+      rintro fa s2' ⟨rfl, rfl⟩
+      exact htail false s2 hq2 (fun h => by cases h)
+    · refine SatC.bind (Q := fun fa s' => s2 = s') (satc_pure rfl) ?_
+      rintro fa s2' rfl
+      exact htail fa s2 hq2 (fun _ => ⟨hsome, by simpa using hno⟩)
+  · refine SatC.bind (Q := fun fa s' => fa = false ∧ s1 = s') (satc_pure ⟨rfl, rfl⟩) ?_
+    rintro fa s2' ⟨rfl, rfl⟩
+    exact htail false s1 (Q2.refl hq1.cb) (fun h => by cases h)
+
+/-! ### the `<script>` start tag in InHead -/
+
+theorem notDoc_of_isEl {d : Dom} {h : Id} (hi : IsEl d h) : d.dataOf h ≠ some .document := by
+  obtain ⟨x, hx⟩ := hi
+  intro hd
+  unfold sigOf at hx
+  rw [hd] at hx
+  simp [TBSafe.sigData] at hx
+
+theorem satcv_isFragment {s : State} : SatC isFragment s (fun _ s' => s' = s) := by
+  unfold H5V.Model.HtmlTB.isFragment
+  refine satc_getS_bind ?_
+  exact satc_pure rfl
+
+/-- the `<script>` arm of `stepInHead` (rules.rs:232): the element is created *before* the insertion
+point is computed -/
+theorem cp_scriptArm {c : List Id} {tag : Tag} (ha : Dom.attrKeysNodup tag.attrs = true) :
+    CP d0 c (do
+      let elem ← createElementWithFlags (htmlQual "script".toList) tag.attrs tag.hadDup
+      if ← isFragment then sinkUnit (.markScriptAlreadyStarted elem)
+      insertAppropriately (.node elem) none
+      push elem
+      toRawTextMode .scriptData) (fun _ => []) := by
+  intro s hcb _
+  refine (satc_createElement_sz hcb ha).bind ?_
+  rintro elem s1 ⟨hc, hsz⟩
+  refine SatC.bind (Q := fun _ s' => s' = s1) satcv_isFragment ?_
+  rintro b s1' rfl
+  dsimp only
+  have htail : ∀ (s2 : State), Q2 d0 s1' s2 → s2.dom = s1'.dom →
+      SatC (do
+        insertAppropriately (NodeOrText.node elem) none
+        push elem
+        toRawTextMode H5V.Model.HtmlTok.RawKind.scriptData) s2
+        (fun _ s' => CB d0 s' ∧ GrowRel s s' ∧ CtxOk [] s') := by
+    intro s2 hq2 hd2
+    have hel2 : IsEl s2.dom elem := hc.el.ext hq2.ext
+    have hst2 : s2.openElems = s.openElems := by rw [hq2.openElems, hc.q.openElems]
+    have hst : ∀ x ∈ s2.openElems, x ≠ elem := by
+      intro x hx e
+      rw [hst2] at hx
+      subst e
+      exact Nat.lt_irrefl _ (Nat.lt_of_lt_of_le (hcb.h.lt x hx) hc.ge)
+    refine (satc_insertAppropriately_node hq2.cb (hc.fresh.of_same_dom hd2) hst (notDoc_of_isEl hel2)).bind ?_
+    rintro _ s3 ⟨ht, P, hPne, heff⟩
+    have hg3 : GrowRel s s3 :=
+      (hc.q.g.trans hq2.g).attachLast ht hc.ge (by rw [hd2]; exact hsz) hPne heff
+    obtain ⟨d3, t3, e3⟩ := ht.same
+    have hst3 : s3.openElems = s.openElems := by rw [e3]; exact hst2
+    have hel3 : IsEl s3.dom elem := hel2.ext ht.ext
+    have htc3 : TcDoc s3.dom elem := (hc.tc.ext hq2.ext hq2.g.kext hc.el).ext ht.ext ht.kext hel2
+    unfold H5V.Model.HtmlTB.push
+    refine satc_modS_bind ?_
+    have hlt3 : elem < s3.dom.size := by rw [heff.size, hd2]; exact hc.lt
+    have hcb4 := ht.cb.push hel3 htc3
+    have hg4 := hg3.push hst3 hc.ge hlt3
+    refine (cp_toRawTextMode (c := []) _ hcb4 (CtxOk.nil _)).mono ?_
+    rintro _ s5 ⟨hcb5, hg5, _⟩
+    exact ⟨hcb5, hg4.trans hg5, CtxOk.nil _⟩
+  refine satc_ite (fun _ => ?_) (fun _ => htail s1' (Q2.refl hc.q.cb) rfl)
+  refine SatC.bind (satc_sinkUnit (Q := fun _ s' => Q2 d0 s1' s' ∧ s'.dom = s1'.dom) hc.q.cb.d
+    (contract_mark hc.el) (fun d' out hap hd => ⟨q2_of_nt hc.q.cb rfl hap hd, by
+      rw [TBSafe.apply_mark] at hap; cases hap; rfl⟩)) ?_
+  rintro _ s2 ⟨hq2, hd2⟩
+  exact htail s2 hq2 hd2
+
+macro_rules | `(tactic| cp_leaf) => `(tactic| with_reducible exact cp_scriptArm (by assumption))
+
+/-! ### the foreign-content attribute adjustments keep attribute lists duplicate-free -/
+
+theorem attrKeysNodup_of_nodup : ∀ (l : List Attr), (l.map Dom.attrKey).Nodup → Dom.attrKeysNodup l = true := by
+  intro l
+  induction l with
+  | nil => intro _; rfl
+  | cons a t ih =>
+    intro h
+    simp only [List.map_cons, List.nodup_cons] at h
+    simp only [Dom.attrKeysNodup, Bool.and_eq_true, Bool.not_eq_true']
+    refine ⟨?_, ih h.2⟩
+    cases hc : (t.map Dom.attrKey).contains (Dom.attrKey a) with
+    | false => rfl
+    | true => rw [List.contains_iff_mem] at hc; exact absurd hc h.1
+
+/-- `adjust_attributes(tag, map)` on one attribute -/
+def adj1 (m : Str → Option QualName) (a : Attr) : Attr :=
+  match m a.name.loc with
+  | some q => { a with name := q }
+  | none => a
+
+theorem adjustAttributes_attrs (m : Str → Option QualName) (tag : Tag) :
+    (adjustAttributes m tag).attrs = tag.attrs.map (adj1 m) := rfl
+
+theorem adj1_some {m : Str → Option QualName} {a : Attr} {q : QualName} (h : m a.name.loc = some q) :
+    adj1 m a = { a with name := q } := by
+  unfold adj1; rw [h]
+
+theorem adj1_none {m : Str → Option QualName} {a : Attr} (h : m a.name.loc = none) : adj1 m a = a := by
+  unfold adj1; rw [h]
+
+/-- a first-stage adjustment table (SVG, MathML, or none): the new names are in no namespace, contain
+an upper-case letter, are not adjusted again by `adjust_foreign_attributes`, and determine the name
+they replace -/
+structure GoodMap (m : Str → Option QualName) : Prop where
+  plain : ∀ l q, m l = some q → q.pfx = none ∧ q.ns = []
+  upper : ∀ l q, m l = some q → ∃ c ∈ q.loc, 'A' ≤ c ∧ c ≤ 'Z'
+  noForeign : ∀ l q, m l = some q → foreignAttrMap q.loc = none
+  back : ∀ l q, m l = some q → l = q.loc.map asciiLower
+
+set_option maxHeartbeats 1600000 in
+theorem svgNames_facts : ∀ s ∈ svgAttrNames,
+    (∃ c ∈ s.toList, 'A' ≤ c ∧ c ≤ 'Z') ∧ foreignAttrMap s.toList = none := by decide
+
+theorem foreignTable_ns : ∀ x ∈ foreignAttrTable, x.2.2.1 ≠ [] := by decide
+
+set_option maxHeartbeats 1600000 in
+theorem foreignTable_inj : ∀ x ∈ foreignAttrTable, ∀ y ∈ foreignAttrTable,
+    x.2.2.1 = y.2.2.1 → x.2.2.2.toList = y.2.2.2.toList → x.1 = y.1 := by decide
+
+theorem mathml_facts : (∃ c ∈ "definitionURL".toList, 'A' ≤ c ∧ c ≤ 'Z') ∧
+    foreignAttrMap "definitionURL".toList = none ∧
+    "definitionurl".toList = "definitionURL".toList.map asciiLower := by decide
+
+theorem svgAttrMap_some {l : Str} {q : QualName} (h : svgAttrMap l = some q) :
+    ∃ s ∈ svgAttrNames, l = lowerStr s ∧ q = plainName s.toList := by
+  unfold svgAttrMap at h
+  cases hf : svgAttrNames.find? (fun s => lowerStr s == l) with
+  | none => rw [hf] at h; cases h
+  | some s =>
+    rw [hf] at h
+    simp only [Option.map_some, Option.some.injEq] at h
+    have h1 := List.find?_some hf
+    exact ⟨s, List.mem_of_find?_eq_some hf, (by simpa using h1 : lowerStr s = l).symm, h.symm⟩
+
+theorem goodMap_svg : GoodMap svgAttrMap := by
+  refine ⟨?_, ?_, ?_, ?_⟩ <;> intro l q h <;> obtain ⟨s, hs, hl, rfl⟩ := svgAttrMap_some h
+  · exact ⟨rfl, rfl⟩
+  · exact (svgNames_facts s hs).1
+  · exact (svgNames_facts s hs).2
+  · exact hl
+
+theorem goodMap_mathml : GoodMap mathmlAttrMap := by
+  have hm : ∀ l q, mathmlAttrMap l = some q → l = "definitionurl".toList ∧ q = plainName "definitionURL".toList := by
+    intro l q h
+    unfold mathmlAttrMap at h
+    by_cases hn : isName l "definitionurl" = true
+    · rw [if_pos hn] at h
+      simp only [Option.some.injEq] at h
+      exact ⟨(by simpa [isName] using hn : "definitionurl".toList = l).symm, h.symm⟩
+    · rw [if_neg hn] at h; cases h
+  refine ⟨?_, ?_, ?_, ?_⟩ <;> intro l q h <;> obtain ⟨rfl, rfl⟩ := hm l q h
+  · exact ⟨rfl, rfl⟩
+  · exact mathml_facts.1
+  · exact mathml_facts.2.1
+  · exact mathml_facts.2.2
+
+theorem goodMap_none : GoodMap (fun _ => none) := by
+  refine ⟨?_, ?_, ?_, ?_⟩ <;> intro l q h <;> cases h
+
+theorem foreignAttrMap_some {l : Str} {r : QualName} (h : foreignAttrMap l = some r) :
+    ∃ x ∈ foreignAttrTable, x.1.toList = l ∧ r.ns = x.2.2.1 ∧ r.loc = x.2.2.2.toList := by
+  unfold foreignAttrMap at h
+  cases hf : foreignAttrTable.find? (fun r => r.1.toList == l) with
+  | none => rw [hf] at h; cases h
+  | some x =>
+    rw [hf] at h
+    simp only [Option.map_some, Option.some.injEq] at h
+    have h1 := List.find?_some hf
+    subst h
+    exact ⟨x, List.mem_of_find?_eq_some hf, by simpa using h1, rfl, rfl⟩
+
+/-- an attribute as the tokenizer delivers it -/
+def OkA (a : Attr) : Prop := a.name.ns = [] ∧ a.name.pfx = none ∧ ∀ c ∈ a.name.loc, ¬('A' ≤ c ∧ c ≤ 'Z')
+
+/-- the key of an attribute after both adjustments, by cases -/
+theorem adjKey_cases {m : Str → Option QualName} (hm : GoodMap m) {a : Attr} (ha : OkA a) :
+    (∃ q, m a.name.loc = some q ∧ Dom.attrKey (adj1 foreignAttrMap (adj1 m a)) = (none, [], q.loc)) ∨
+    (∃ r, foreignAttrMap a.name.loc = some r ∧ r.ns ≠ [] ∧
+      Dom.attrKey (adj1 foreignAttrMap (adj1 m a)) = (none, r.ns, r.loc)) ∨
+    Dom.attrKey (adj1 foreignAttrMap (adj1 m a)) = (none, [], a.name.loc) := by
+  cases h1 : m a.name.loc with
+  | some q =>
+    refine Or.inl ⟨q, rfl, ?_⟩
+    rw [adj1_some h1]
+    have hn : foreignAttrMap ({ a with name := q } : Attr).name.loc = none := hm.noForeign _ _ h1
+    rw [adj1_none hn]
+    obtain ⟨hp, hns⟩ := hm.plain _ _ h1
+    unfold Dom.attrKey
+    rw [if_pos hns, hp]
+  | none =>
+    rw [adj1_none h1]
+    cases h2 : foreignAttrMap a.name.loc with
+    | some r =>
+      refine Or.inr (Or.inl ⟨r, rfl, ?_⟩)
+      obtain ⟨x, hx, _, hns, _⟩ := foreignAttrMap_some h2
+      have hne : r.ns ≠ [] := by rw [hns]; exact foreignTable_ns x hx
+      refine ⟨hne, ?_⟩
+      rw [adj1_some h2]
+      unfold Dom.attrKey
+      rw [if_neg hne]
+    | none =>
+      refine Or.inr (Or.inr ?_)
+      rw [adj1_none h2]
+      unfold Dom.attrKey
+      rw [if_pos ha.1, ha.2.1]
+
+theorem adjKey_inj {m : Str → Option QualName} (hm : GoodMap m) {a b : Attr} (ha : OkA a) (hb : OkA b)
+    (h : Dom.attrKey (adj1 foreignAttrMap (adj1 m a)) = Dom.attrKey (adj1 foreignAttrMap (adj1 m b))) :
+    a.name.loc = b.name.loc := by
+  rcases adjKey_cases hm ha with ⟨q1, hq1, k1⟩ | ⟨r1, hr1, hn1, k1⟩ | k1 <;>
+  rcases adjKey_cases hm hb with ⟨q2, hq2, k2⟩ | ⟨r2, hr2, hn2, k2⟩ | k2 <;>
+  rw [k1, k2] at h <;> simp only [Prod.mk.injEq, true_and] at h
+  · rw [hm.back _ _ hq1, hm.back _ _ hq2, h]
+  · exact absurd h.1.symm hn2
+  · obtain ⟨c, hc, hu⟩ := hm.upper _ _ hq1
+    rw [h] at hc
+    exact absurd hu (hb.2.2 c hc)
+  · exact absurd h.1 hn1
+  · obtain ⟨x, hx, hxl, hxn, hxo⟩ := foreignAttrMap_some hr1
+    obtain ⟨y, hy, hyl, hyn, hyo⟩ := foreignAttrMap_some hr2
+    have := foreignTable_inj x hx y hy (by rw [← hxn, ← hyn]; exact h.1) (by rw [← hxo, ← hyo]; exact h.2)
+    rw [← hxl, ← hyl, this]
+  · exact absurd h.1 hn1
+  · obtain ⟨c, hc, hu⟩ := hm.upper _ _ hq2
+    rw [← h] at hc
+    exact absurd hu (ha.2.2 c hc)
+  · exact absurd h.1.symm hn2
+  · exact h
+
+/-- **both adjustments keep a tokenizer-delivered attribute list duplicate-free** -/
+theorem attrKeysNodup_adjust {m : Str → Option QualName} (hm : GoodMap m) {tag : Tag} (ha : AttrsOk tag.attrs) :
+    Dom.attrKeysNodup (adjustAttributes foreignAttrMap (adjustAttributes m tag)).attrs = true := by
+  rw [adjustAttributes_attrs, adjustAttributes_attrs]
+  refine attrKeysNodup_of_nodup _ ?_
+  rw [List.map_map, List.map_map]
+  obtain ⟨h1, h2⟩ := ha
+  unfold List.Nodup
+  rw [List.pairwise_map]
+  have h2' : tag.attrs.Pairwise (fun a b => a.name.loc ≠ b.name.loc) := by
+    have := h2; unfold List.Nodup at this; rwa [List.pairwise_map] at this
+  refine h2'.imp_of_mem ?_
+  intro a b hma hmb hne hk
+  exact hne (adjKey_inj hm (h1 a hma) (h1 b hmb) hk)
+
+theorem attrKeysNodup_adjustSvg {tag : Tag} (ha : AttrsOk tag.attrs) :
+    Dom.attrKeysNodup (adjustForeignAttributes (adjustSvgAttributes tag)).attrs = true :=
+  attrKeysNodup_adjust goodMap_svg ha
+
+theorem attrKeysNodup_adjustMathml {tag : Tag} (ha : AttrsOk tag.attrs) :
+    Dom.attrKeysNodup (adjustForeignAttributes (adjustMathmlAttributes tag)).attrs = true :=
+  attrKeysNodup_adjust goodMap_mathml ha
+
+theorem attrKeysNodup_adjustForeign {tag : Tag} (ha : AttrsOk tag.attrs) :
+    Dom.attrKeysNodup (adjustForeignAttributes tag).attrs = true := by
+  have h := attrKeysNodup_adjust goodMap_none (tag := tag) ha
+  have e : (adjustAttributes (fun _ => none) tag).attrs = tag.attrs := by
+    rw [adjustAttributes_attrs]
+    have : adj1 (fun _ => none) = id := funext (fun a => rfl)
+    rw [this, List.map_id]
+  rw [adjustAttributes_attrs] at h
+  rw [e] at h
+  exact h
+
+/-! ### `enter_foreign`, `foreign_start_tag` -/
+
+macro_rules | `(tactic| cp_leaf) => `(tactic| with_reducible exact cp_insertElement (by assumption))
+
+theorem attrKeysNodup_enterForeign {tag : Tag} {ns : Str} (ha : AttrsOk tag.attrs) :
+    Dom.attrKeysNodup (adjustForeignAttributes
+      (if (ns == nsMathml) = true then adjustMathmlAttributes tag
+       else if (ns == nsSvg) = true then adjustSvgAttributes tag else tag)).attrs = true := by
+  by_cases h1 : (ns == nsMathml) = true
+  · rw [if_pos h1]; exact attrKeysNodup_adjustMathml ha
+  · rw [if_neg h1]
+    by_cases h2 : (ns == nsSvg) = true
+    · rw [if_pos h2]; exact attrKeysNodup_adjustSvg ha
+    · rw [if_neg h2]; exact attrKeysNodup_adjustForeign ha
+
+theorem attrKeysNodup_foreignStartTag {tag : Tag} {ns : Str} (ha : AttrsOk tag.attrs) :
+    Dom.attrKeysNodup (adjustForeignAttributes
+      (if (ns == nsMathml) = true then adjustMathmlAttributes tag
+       else if (ns == nsSvg) = true then adjustSvgAttributes { tag with name := adjustSvgTagName tag.name }
+       else tag)).attrs = true := by
+  by_cases h1 : (ns == nsMathml) = true
+  · rw [if_pos h1]; exact attrKeysNodup_adjustMathml ha
+  · rw [if_neg h1]
+    by_cases h2 : (ns == nsSvg) = true
+    · rw [if_pos h2]; exact attrKeysNodup_adjustSvg (tag := { tag with name := adjustSvgTagName tag.name }) ha
+    · rw [if_neg h2]; exact attrKeysNodup_adjustForeign ha
+
+theorem cp_enterForeign {c : List Id} {tag : Tag} {ns : Str} (ha : AttrsOk tag.attrs) :
+    CP d0 c (enterForeign tag ns) (fun _ => []) := by
+  unfold enterForeign
+  dsimp only
+  have hk := attrKeysNodup_enterForeign (ns := ns) ha
+  refine cp_ite (fun _ => ?_) (fun _ => ?_)
+  · exact cp_bind (cp_insertElement hk) (fun _ => cp_pure_nil _)
+  · exact cp_bind (cp_insertElement hk) (fun _ => cp_pure_nil _)
+
+macro_rules | `(tactic| cp_leaf) => `(tactic| with_reducible exact cp_enterForeign (by assumption))
+
+theorem cp_foreignStartTag {c : List Id} {tag : Tag} (ha : AttrsOk tag.attrs) :
+    CP d0 c (foreignStartTag tag) (fun _ => []) := by
+  unfold foreignStartTag
+  refine cp_bind cp_adjustedCurrentNode ?_
+  intro cur
+  refine cp_bind (cp_elemName (by simp)) ?_
+  intro n
+  dsimp only
+  have hk := attrKeysNodup_foreignStartTag (ns := n.ns) ha
+  refine cp_ite (fun _ => ?_) (fun _ => ?_)
+  · exact cp_bind (cp_insertElement hk) (fun _ => cp_pure_nil _)
+  · exact cp_bind (cp_insertElement hk) (fun _ => cp_pure_nil _)
+
+macro_rules | `(tactic| cp_leaf) => `(tactic| with_reducible exact cp_foreignStartTag (by assumption))
+
+/-! ### the list of active formatting elements: reconstruction, `create_formatting_element_for` -/
+
+/-- replacing the list of active formatting elements by one whose element entries are good -/
+theorem cb_withAF {s : State} (hcb : CB d0 s) {af : List FormatEntry}
+    (h : ∀ x t, FormatEntry.element x t ∈ af →
+      IsEl s.dom x ∧ nm s.dom x = ⟨nsHtml, t.name⟩ ∧ isOneOf t.name fmtNames = true ∧ AttrsOk t.attrs) :
+    CB d0 { s with activeFormatting := af } ∧ GrowRel s { s with activeFormatting := af } :=
+  ⟨⟨⟨hcb.d.inv, hcb.d.run⟩,
+    ⟨hcb.h.docH, hcb.h.doc0, hcb.h.open_el, hcb.h.open_tc, h, hcb.h.head, hcb.h.form, hcb.h.ctx, hcb.h.headTc⟩,
+    lateS_of_eq hcb.l rfl rfl rfl⟩, GrowRel.of_sublist rfl (List.Sublist.refl _)⟩
+
+theorem satc_reconstructCreate : ∀ (fuel entryIndex : Nat) (s : State), CB d0 s →
+    SatC (reconstructCreate fuel entryIndex) s (fun _ s' => CB d0 s' ∧ GrowRel s s') := by
+  intro fuel
+  induction fuel with
+  | zero => intro _ s _; unfold H5V.Model.HtmlTB.reconstructCreate; exact satc_fuelOut
+  | succ fuel ih =>
+    intro entryIndex s hcb
+    unfold H5V.Model.HtmlTB.reconstructCreate
+    refine satc_getS_bind ?_
+    cases hget : s.activeFormatting[entryIndex]? with
+    | none => exact SatC.bind (Q := fun _ _ => False) satc_panicAt (fun _ _ h => h.elim)
+    | some e =>
+      cases e with
+      | marker => exact SatC.bind (Q := fun _ _ => False) satc_panicAt (fun _ _ h => h.elim)
+      | element h t =>
+        dsimp only
+        refine SatC.bind (Q := fun r s' => t = r ∧ s = s') (satc_pure ⟨rfl, rfl⟩) ?_
+        rintro tag s0 ⟨rfl, rfl⟩
+        have hmem : FormatEntry.element h t ∈ s.activeFormatting := List.mem_of_getElem? hget
+        obtain ⟨_, _, hfmt, hattrs⟩ := hcb.h.af h t hmem
+        refine (satc_insertElement_val hcb (attrKeysNodup_of_attrsOk hattrs)).bind ?_
+        rintro newE s1 ⟨hcb1, hg1, hel1, hnm1⟩
+        refine satc_getS_bind ?_
+        have hset := cb_withAF hcb1 (af := s1.activeFormatting.set entryIndex (.element newE t)) (by
+          intro x t' hx
+          rcases List.mem_or_eq_of_mem_set hx with hx | hx
+          · exact hcb1.h.af x t' hx
+          · cases hx; exact ⟨hel1, hnm1, hfmt, hattrs⟩)
+        have hcont : SatC (do
+            let __do_lift ← getS
+            if (__do_lift.activeFormatting.length == 0) = true then
+                panicAt "sub-overflow" "mod.rs:1032" "len() - 1"
+              else
+                if (entryIndex == __do_lift.activeFormatting.length - 1) = true then pure ()
+                else reconstructCreate fuel (entryIndex + 1))
+            { s1 with activeFormatting := s1.activeFormatting.set entryIndex (.element newE t) }
+            (fun _ s' => CB d0 s' ∧ GrowRel s s') := by
+          refine satc_getS_bind ?_
+          refine satc_ite (fun _ => satc_panicAt) (fun _ => ?_)
+          refine satc_ite (fun _ => satc_pure ⟨hset.1, hg1.trans hset.2⟩) (fun _ => ?_)
+          refine (ih (entryIndex + 1) _ hset.1).mono ?_
+          rintro _ s3 ⟨hcb3, hg3⟩
+          exact ⟨hcb3, (hg1.trans hset.2).trans hg3⟩
+        refine satc_ite (fun _ => ?_) (fun _ => ?_)
+        · unfold H5V.Model.HtmlTB.setAF
+          refine satc_modS_bind ?_
+          exact hcont
+        · exact SatC.bind (Q := fun _ _ => False) satc_panicAt (fun _ _ h => h.elim)
+
+theorem cp_reconstructCreate {c : List Id} {fuel entryIndex : Nat} :
+    CP d0 c (reconstructCreate fuel entryIndex) (fun _ => []) := by
+  intro s hcb _
+  exact (satc_reconstructCreate fuel entryIndex s hcb).mono (fun _ _ h => ⟨h.1, h.2, CtxOk.nil _⟩)
+
+macro_rules | `(tactic| cp_leaf) => `(tactic| with_reducible exact cp_reconstructCreate)
+
+theorem cp_reconstructActiveFormattingElements {c : List Id} :
+    CP d0 c reconstructActiveFormattingElements (fun _ => []) := by
+  unfold H5V.Model.HtmlTB.reconstructActiveFormattingElements
+  refine cp_getS_bind ?_
+  intro s0
+  dsimp only
+  cases hl : s0.activeFormatting.getLast? with
+  | none => exact cp_pure_nil _
+  | some last =>
+    dsimp only
+    refine cp_bind (cp_isMarkerOrOpen ?_) ?_
+    · intro h t het
+      subst het
+      exact mem_afH (List.mem_of_getLast? hl)
+    · intro b
+      refine cp_ite (fun _ => cp_pure_nil _) (fun _ => ?_)
+      exact cp_bind (cp_reconstructRewind _) (fun _ => cp_reconstructCreate)
+
+macro_rules | `(tactic| cp_leaf) => `(tactic| with_reducible exact cp_reconstructActiveFormattingElements)
+
+theorem cp_createFormattingElementFor {c : List Id} {tag : Tag} (hfmt : isOneOf tag.name fmtNames = true)
+    (ha : AttrsOk tag.attrs) : CP d0 c (createFormattingElementFor tag) (fun r => [r]) := by
+  have htail : ∀ (c' : List Id), CP d0 c' (do
+      let elem ← insertElement true nsHtml tag.name tag.attrs tag.hadDup
+      modS fun s => { s with activeFormatting := s.activeFormatting ++ [FormatEntry.element elem tag] }
+      pure elem) (fun r => [r]) := by
+    intro c' s hcb _
+    refine (satc_insertElement_val hcb (attrKeysNodup_of_attrsOk ha)).bind ?_
+    rintro elem s1 ⟨hcb1, hg1, hel1, hnm1⟩
+    refine satc_modS_bind ?_
+    have hset := cb_withAF hcb1 (af := s1.activeFormatting ++ [FormatEntry.element elem tag]) (by
+      intro x t' hx
+      rcases List.mem_append.mp hx with hx | hx
+      · exact hcb1.h.af x t' hx
+      · simp only [List.mem_singleton] at hx; cases hx; exact ⟨hel1, hnm1, hfmt, ha⟩)
+    exact satc_pure ⟨hset.1, hg1.trans hset.2, fun x hx => by rw [List.mem_singleton.mp hx]; exact hel1⟩
+  unfold H5V.Model.HtmlTB.createFormattingElementFor
+  refine cp_getS_bind ?_
+  intro s0
+  dsimp only
+  refine cp_ite (fun _ => ?_) (fun _ => htail _)
+  cases hl : ((afEndToMarker s0.activeFormatting).filter
+      (fun x => tag.equivModuloAttrOrder x.2.2)).getLast? with
+  | none => exact cp_bind (R := fun _ => []) cp_panicAt (fun _ => htail _)
+  | some r => exact cp_bind (R := fun _ => []) cp_afRemove (fun _ => htail _)
+
+macro_rules | `(tactic| cp_leaf) => `(tactic| with_reducible exact cp_createFormattingElementFor (by assumption) (by assumption))
+
+/-! ### the leaves again, for callers that know `AttrsOk` of the tag -/
+
+macro_rules | `(tactic| cp_leaf) => `(tactic| with_reducible exact cp_insertElementFor (attrKeysNodup_of_attrsOk (by assumption)))
+macro_rules | `(tactic| cp_leaf) => `(tactic| with_reducible exact cp_insertAndPopElementFor (attrKeysNodup_of_attrsOk (by assumption)))
+macro_rules | `(tactic| cp_leaf) => `(tactic| with_reducible exact cp_insertForeignElement (attrKeysNodup_of_attrsOk (by assumption)))
+macro_rules | `(tactic| cp_leaf) => `(tactic| with_reducible exact cp_parseRawData (attrKeysNodup_of_attrsOk (by assumption)))
+macro_rules | `(tactic| cp_leaf) => `(tactic| with_reducible exact cp_createRoot (attrKeysNodup_of_attrsOk (by assumption)))
+macro_rules | `(tactic| cp_leaf) => `(tactic| with_reducible exact cp_scriptArm (attrKeysNodup_of_attrsOk (by assumption)))
 
 end H5V.Lemmas.TBC
